@@ -30,8 +30,7 @@ _CONTROL_STRUCTURES = (
     ast.With,
     ast.AsyncWith,
     ast.Try,
-    ast.Match,
-    ast.match_case,
+    ast.Match,  # a match statement with its case arms is one level (like switch/case)
 )
 
 
